@@ -322,8 +322,10 @@ fn direct_verdict(doc0: &Document, v: &Ver, pws: &[Vec<u8>], alldiff: bool) -> S
                     return format!("FAIL {} of {} bytes in object {:?} keeps its plaintext after encryption",
                                    if x.1 { "stream" } else { "string" }, x.3.len(), id);
                 }
-                if !x.2 && v.cfs.values().all(|f| f.method().starts_with(b"AES")) && !v.cfs.is_empty()
-                    && v.tag != "v1" && v.tag != "v2" && x.3.len() == y.3.len() {
+                // the crypt filter this string / stream is subject to: StrF / StmF looked up in CF (a name that CF does not
+                // define falls back to RC4, whose ciphertext has the length of the plaintext)
+                let is_aes = v.cfs.get(if x.1 { &v.stmf } else { &v.strf }).map(|f| f.method().starts_with(b"AES")).unwrap_or(false);
+                if !x.2 && is_aes && v.tag != "v1" && v.tag != "v2" && x.3.len() == y.3.len() {
                     return format!("FAIL AES ciphertext as long as its plaintext in object {:?}", id);
                 }
             }
